@@ -381,7 +381,13 @@ class Exec(Engine):
             for e in exprs:
                 tree = self.reg.parse_spec(e)
                 v = self.ev1(tree, st)
-                terms.append((e, self.truth(v)))
+                t = self.truth(v)
+                if z3.is_and(t) and t.num_args() > 1:
+                    # one obligation per conjunct: smaller, more stable queries
+                    for i, ch in enumerate(t.children()):
+                        terms.append((f"{e[:44]}~{i}", ch))
+                else:
+                    terms.append((e, t))
             return terms
         finally:
             self.spec, self.bound = saved_spec, saved_bound
@@ -591,6 +597,15 @@ class Exec(Engine):
                     self.oblige(s, znot(t), "raises", f"post.no-normal-return-when[{exc}:{cond[:40]}]/path{i}", self.fn.lineno)
                 for e, t in self.spec_conj(c.ensures, s):
                     self.oblige(s, t, "post", f"post[{e[:60]}]/path{i}", self.fn.lineno)
+                if c.defn is not None:
+                    saved = self.spec
+                    self.spec = True
+                    try:
+                        dv = self.ev1(self.reg.parse_spec(c.defn), self._with_old(s))
+                    finally:
+                        self.spec = saved
+                    self.oblige(s, self.eq(self.result, self.typed(dv, c.returns) if c.returns else dv), "post",
+                                f"post[result == {c.defn[:50]}]/path{i}", self.fn.lineno)
             elif s.flow == "raise":
                 exc = s.exc[0]
                 allowed = [cond for (e, cond) in c.raises if self.reg.exc_is_subclass(exc, e)]
